@@ -1,7 +1,7 @@
 import A5.Lemmas.PathCodec
 import A5.Lemmas.Order
 import A5.Model.Compact
-/-! # The sort key of `compact` on tree paths (core-only)
+/-! # The sort key of `compact` on tree paths (core-only; everything lives in namespace `A5.CompactKey`)
 
 `pkey p` is the closed form of `hierarchyKey (enc p)`:
 
@@ -20,8 +20,8 @@ Main results
   ≥ 1 the subtree is therefore contiguous in key order (`pkey_between_children_deep`); the unrestricted
   contiguity statement is false (`not_subtree_contiguous`).
 -/
-namespace A5
-namespace Path
+namespace A5.CompactKey
+open A5 A5.Path
 
 /-! ### the key -/
 
@@ -247,6 +247,63 @@ theorem enc_deep_block {f k : Nat} {ds : List Nat} (hp : WF (deep f k ds)) :
   rewrite [Order.enc_deep]
   omega
 
+theorem pkey_world : pkey world = 2 ^ 57 + 1 := Eq.trans rfl rfl
+theorem pkey_face (f : Nat) : pkey (face f) = 5 * f * 2 ^ 58 + 2 ^ 57 := Eq.trans rfl rfl
+theorem pkey_deep (f k : Nat) (ds : List Nat) : pkey (deep f k ds) = enc (deep f k ds) := Eq.trans rfl rfl
+theorem enc_quint (f k : Nat) : enc (deep f k []) = (5 * f + k) * 2 ^ 58 + 2 ^ 56 := by
+  simp only [enc, value_nil, List.length_nil, Nat.zero_mul, Nat.add_zero, if_true]
+
+theorem between_face {f : Nat} {q : Path} (hq : WF q)
+    (h1 : pkey (firstChild (face f)) ≤ pkey q) (h2 : pkey q ≤ pkey (lastChild (face f))) :
+    Covers (face f) q ∨ (res q ≤ 0 ∧ Covers q (face f)) := by
+  have e1 : pkey (firstChild (face f)) = (5 * f + 0) * 2 ^ 58 + 2 ^ 56 := enc_quint f 0
+  have e2 : pkey (lastChild (face f)) = (5 * f + 4) * 2 ^ 58 + 2 ^ 56 := enc_quint f 4
+  rewrite [e1] at h1; rewrite [e2] at h2
+  clear e1 e2
+  cases q with
+  | world => exact Or.inr ⟨by simp only [res]; omega, covers_world _⟩
+  | face g =>
+    rewrite [pkey_face] at h1 h2
+    have : g = f := by omega
+    rewrite [this]; exact Or.inl (covers_refl _)
+  | deep g j es =>
+    have hb := enc_deep_block hq
+    obtain ⟨_, hj, _, _⟩ := hq
+    rewrite [pkey_deep] at h1 h2
+    have : g = f := by omega
+    rewrite [this]; exact Or.inl (covers_face_deep f j es)
+
+theorem between_deep {f k : Nat} {ds : List Nat} {q : Path} (hp : WF (deep f k ds)) (h28 : ds.length ≤ 27) (hq : WF q)
+    (h1 : pkey (firstChild (deep f k ds)) ≤ pkey q) (h2 : pkey q ≤ pkey (lastChild (deep f k ds))) :
+    Covers (deep f k ds) q ∨ (res q ≤ 0 ∧ Covers q (deep f k ds)) := by
+  have hwf := hp
+  obtain ⟨hf, hk, hd, hl⟩ := hp
+  have hd4 : ∀ j, j < 4 → ∀ d ∈ [j], d < 4 := by
+    intro j hj d hd'; simp only [List.mem_singleton] at hd'; omega
+  have b0 := Order.enc_append_bounds f k ds [0] (hd4 0 (by omega)) (by simp only [List.length_singleton]; omega)
+  have b3 := Order.enc_append_bounds f k ds [3] (hd4 3 (by omega)) (by simp only [List.length_singleton]; omega)
+  have e1 : pkey (firstChild (deep f k ds)) = enc (deep f k (ds ++ [0])) := Eq.trans rfl rfl
+  have e2 : pkey (lastChild (deep f k ds)) = enc (deep f k (ds ++ [3])) := Eq.trans rfl rfl
+  rewrite [e1] at h1; rewrite [e2] at h2
+  clear e1 e2
+  cases q with
+  | world => exact Or.inr ⟨by simp only [res]; omega, covers_world _⟩
+  | face g =>
+    rewrite [pkey_face] at h1 h2
+    have hbl := Order.value_mul_W_le ds hd (by omega)
+    have hW := Order.W_pos ds.length
+    have e : Order.blockBase f k ds = (5 * f + k) * 2 ^ 58 + value ds * Order.W ds.length := Eq.trans rfl rfl
+    rewrite [e] at b0 b3
+    have : g = f := by omega
+    rewrite [this]; exact Or.inr ⟨by simp only [res]; omega, covers_face_deep f k ds⟩
+  | deep g j es =>
+    rewrite [pkey_deep] at h1 h2
+    have e3 : Order.lo (deep f k ds) = Order.blockBase f k ds + 2 := Eq.trans rfl rfl
+    have e4 : Order.hi (deep f k ds) = Order.blockBase f k ds + Order.W ds.length - 2 := Eq.trans rfl rfl
+    have := Order.ancestor_of_enc_bounds hwf hq (res_deep_pos f k ds) (res_deep_pos g j es)
+      (by rewrite [e3]; omega) (by rewrite [e4]; omega)
+    exact Or.inl this
+
 /-- **subtree contiguity, true form.**  If the key of `q` lies between the keys of the first and the last child of
 `p`, then `q` is `p` or a descendant of `p` — or `q` is the world cell or a face and an ancestor of `p`. -/
 theorem pkey_between_children {p q : Path} (hp : WF p) (h28 : res p ≤ 28) (hq : WF q)
@@ -254,44 +311,10 @@ theorem pkey_between_children {p q : Path} (hp : WF p) (h28 : res p ≤ 28) (hq 
     Covers p q ∨ (res q ≤ 0 ∧ Covers q p) := by
   cases p with
   | world => exact Or.inl (covers_world q)
-  | face f =>
-    have e1 : pkey (firstChild (face f)) = 5 * f * 2 ^ 58 + 2 ^ 56 := by
-      simp only [firstChild, pkey, enc, value_nil, List.length_nil, if_true] <;> omega
-    have e2 : pkey (lastChild (face f)) = (5 * f + 4) * 2 ^ 58 + 2 ^ 56 := by
-      simp only [lastChild, pkey, enc, value_nil, List.length_nil, if_true] <;> omega
-    rewrite [e1] at h1; rewrite [e2] at h2
-    cases q with
-    | world => exact Or.inr ⟨by simp only [res]; omega, covers_world _⟩
-    | face g =>
-      simp only [pkey] at h1 h2
-      have : g = f := by omega
-      rewrite [this]; exact Or.inl (covers_refl _)
-    | deep g j es =>
-      have hb := enc_deep_block hq
-      obtain ⟨_, hj, _, _⟩ := hq
-      simp only [pkey] at h1 h2
-      have : g = f := by omega
-      rewrite [this]; exact Or.inl (covers_face_deep f j es)
+  | face f => exact between_face hq h1 h2
   | deep f k ds =>
-    have hwf := hp
-    obtain ⟨hf, hk, hd, hl⟩ := hp
     simp only [res] at h28
-    have hd4 : ∀ j, j < 4 → ∀ d ∈ [j], d < 4 := by
-      intro j hj d hd'; simp only [List.mem_singleton] at hd'; omega
-    have b0 := Order.enc_append_bounds f k ds [0] (hd4 0 (by omega)) (by simp only [List.length_singleton]; omega)
-    have b3 := Order.enc_append_bounds f k ds [3] (hd4 3 (by omega)) (by simp only [List.length_singleton]; omega)
-    simp only [firstChild, lastChild, pkey] at h1 h2
-    cases q with
-    | world => exact Or.inr ⟨by simp only [res]; omega, covers_world _⟩
-    | face g =>
-      have hbl := Order.value_mul_W_le ds hd (by omega)
-      simp only [Order.blockBase] at b0 b3
-      have : g = f := by omega
-      rewrite [this]; exact Or.inr ⟨by simp only [res]; omega, covers_face_deep f k ds⟩
-    | deep g j es =>
-      have := Order.ancestor_of_enc_bounds hwf hq (res_deep_pos f k ds) (res_deep_pos g j es)
-        (by simp only [Order.lo]; omega) (by simp only [Order.hi]; omega)
-      exact Or.inl this
+    exact between_deep hp (by omega) hq h1 h2
 
 /-- for cells of resolution ≥ 1 the subtree of `p` is contiguous in key order -/
 theorem pkey_between_children_deep {p q : Path} (hp : WF p) (h28 : res p ≤ 28) (hq : WF q) (hq1 : 1 ≤ res q)
@@ -317,5 +340,4 @@ example : hierarchyKey (enc (face 3)) = 15 * 2 ^ 58 + 2 ^ 57 := by decide +kerne
 example : pkey (deep 0 0 [1]) < pkey (face 0) ∧ pkey (face 0) < pkey world ∧ pkey world < pkey (deep 0 0 [2]) := by
   decide
 
-end Path
-end A5
+end A5.CompactKey
